@@ -1,5 +1,6 @@
 import Slu.Model.Mem
 import SluProofs.Lemmas.Mem
+import SluProofs.Lemmas.MemInit
 /-
 C08 — A caller workspace is never overrun; shortage is reported.
 
@@ -53,6 +54,35 @@ theorem mem_inv (w : Words) (hw : w.Ok) (hld : w.liw ≤ w.dw) (fail : Nat → B
   induction ops with
   | nil => intro s h; exact h
   | cons op ops ih => intro s h; exact ih _ (mem_inv_step w hw hld fail s op h)
+
+/-- **C08 `mem_inv`, initial state**: whenever the repaired `LUMemInit` returns 0 for a caller
+workspace — any `lwork > 0`, either alignment, any problem size and fill estimate, any path through
+the retry/halving loop — the state it leaves satisfies the invariant.  (`isize`, `dsize` are the byte
+sizes of the two work arrays; they are nonnegative whenever `m, panel_size, maxsuper, rowblk ≥ 0`.) -/
+theorem mem_inv_init (fail : Nat → Bool) (c : Cfg) (hw : c.w.Ok) (hl : 0 < c.lwork) (hn : 1 ≤ c.n) (ha : 1 ≤ c.annz)
+    (hI : 0 ≤ isize c) (hD : 0 ≤ dsize c) (hnz : 0 ≤ c.fill * c.annz)
+    (h : (memInit_fixed fail c).info = 0) : Inv c.w (memInit_fixed fail c).st :=
+  memInit_fixed_inv fail c hw hl hn hI hD hnz (memInit_no_spin fixed fail c ha hnz) h
+
+/-- `LUMemInit` terminates: the retry loop cannot run forever when `nnz(A) ≥ 1` (any mode, any
+allocation failures, pinned or repaired code). -/
+theorem memInit_terminates (fx : Fixes) (fail : Nat → Bool) (c : Cfg) (ha : 1 ≤ c.annz) (hnz : 0 ≤ c.fill * c.annz) :
+    (memInit fx fail c).spin = false :=
+  memInit_no_spin fx fail c ha hnz
+
+/-- **C08 `mem_inv`, every reachable state**: `LUMemInit` followed by any request sequence. -/
+theorem mem_inv_reachable (fail : Nat → Bool) (c : Cfg) (hw : c.w.Ok) (hld : c.w.liw ≤ c.w.dw) (hl : 0 < c.lwork)
+    (hn : 1 ≤ c.n) (ha : 1 ≤ c.annz) (hI : 0 ≤ isize c) (hD : 0 ≤ dsize c) (hnz : 0 ≤ c.fill * c.annz)
+    (h : (memInit_fixed fail c).info = 0) (ops : List Op) :
+    Inv c.w (run fixed c.w fail (memInit_fixed fail c).st ops) :=
+  mem_inv c.w hw hld fail ops _ (mem_inv_init fail c hw hl hn ha hI hD hnz h)
+
+/-- **C08 `shortage_reported`, allocation phase**: if `LUMemInit` does not return 0 it returns a value
+larger than `n` (workspace or library allocation, whatever fails). -/
+theorem shortage_reported_init (fail : Nat → Bool) (c : Cfg) (hw : c.w.Ok) (hn : 1 ≤ c.n) (ha : 1 ≤ c.annz)
+    (hI : 0 ≤ isize c) (hD : 0 ≤ dsize c) (hnz : 0 ≤ c.fill * c.annz)
+    (h : (memInit_fixed fail c).info ≠ 0) : c.n < (memInit_fixed fail c).info :=
+  memInit_info_gt fixed fail c hw hn ha hI hD hnz h
 
 /-- **C08 `mem_confined`**: in every reachable state every array handed to a writer lies inside
 `[0, size)` and no two of them overlap. -/
